@@ -772,3 +772,87 @@ Proof.
   - unfold rpos, rst_of_pos. cbn [cur rbit]. fold p. lia.
 Qed.
 
+
+(* ====================================================================== *)
+(* Strings read back (bufr_getstring) *)
+
+(* bufr_getstring is len successive 8-bit reads: when those reads succeed it returns their bytes, error code 0 *)
+Lemma getstring_read_fields : forall len d L s acc vs s',
+  read_fields d L s (repeat 8%nat len) = Some (vs, s') ->
+  getstring d L s len acc = Some (rev acc ++ map (fun c => N.land c 255) vs, 0%Z, s').
+Proof.
+  induction len as [|k IH]; intros d L s acc vs s' H; cbn [repeat read_fields getstring] in *.
+  - injection H as <- <-. cbn [map]. rewrite app_nil_r. reflexivity.
+  - destruct (getbits d L s 8) as [|v e s1]; [discriminate|].
+    destruct e as [|p|p]; try discriminate.
+    destruct (read_fields d L s1 (repeat 8%nat k)) as [[vs1 s2]|] eqn:E; [|discriminate].
+    injection H as <- <-.
+    change (Z.ltb 0 0) with false. cbv iota.
+    rewrite (IH d L s1 (N.land v 255 :: acc) vs1 s2 E).
+    cbn [rev map]. rewrite <- app_assoc. reflexivity.
+Qed.
+
+Lemma land255_small c : c < 256 -> N.land c 255 = c.
+Proof. intro H. change 255 with (N.ones 8). rewrite N.land_ones. apply N.mod_small. exact H. Qed.
+
+Lemma map_snd_bytes (l : list N) : map snd (map (fun c => (c, 8%nat)) l) = repeat 8%nat (length l).
+Proof. induction l as [|c t IH]; cbn [map length repeat snd]; [reflexivity|]. rewrite IH. reflexivity. Qed.
+
+Lemma map_val_bytes (l : list N) : Forall (fun c => c < 256) l ->
+  map (fun c => N.land c 255) (map (fun f : N * nat => fst f mod 2^(N.of_nat (snd f))) (map (fun c => (c, 8%nat)) l)) = l.
+Proof.
+  induction 1 as [|c t Hc Ht IH]; cbn [map fst snd]; [reflexivity|].
+  rewrite IH. f_equal. change (2^N.of_nat 8) with 256. rewrite N.mod_small by exact Hc. apply land255_small. exact Hc.
+Qed.
+
+(* character strings: what bufr_putstring / bufr_put_padstring wrote at ANY bit offset is what bufr_getstring reads *)
+Theorem string_roundtrip : forall s0 str enclen s,
+  WF s0 -> Forall (fun c => c < 256) str -> put_padstring s0 str enclen = Some s ->
+  let d := wbytes s in
+  let body := firstn enclen str in
+  exists s', getstring d (length d) (rst_of_pos (N.to_nat (slen s0))) enclen []
+               = Some (body ++ repeat 32 (enclen - length body), 0%Z, s')
+          /\ rpos s' = N.to_nat (slen s).
+Proof.
+  intros s0 str enclen s Hw Hs H d body.
+  pose proof (padstring_fields s0 str enclen s Hw Hs H) as Hf. cbv zeta in Hf. fold body in Hf.
+  set (l := body ++ repeat 32 (enclen - length body)) in *.
+  assert (Hl : Forall (fun c => c < 256) l).
+  { apply Forall_app. split.
+    - apply Forall_forall. intros x Hx. apply (proj1 (Forall_forall _ _) Hs). rewrite <- (firstn_skipn enclen str). apply in_or_app. left. exact Hx.
+    - apply Forall_forall. intros x Hx. apply repeat_spec in Hx. subst x. reflexivity. }
+  assert (Hlen : length l = enclen).
+  { unfold l. rewrite app_length, repeat_length. pose proof (firstn_le_length enclen str) as Hfl. fold body in Hfl. lia. }
+  assert (Hfs : Forall (fun f : N * nat => (1 <= snd f <= 64)%nat) (map (fun c => (c, 8%nat)) l)).
+  { apply Forall_forall. intros f Hfi. apply in_map_iff in Hfi. destruct Hfi as (c & <- & _). cbn [snd]. lia. }
+  destruct (write_read_roundtrip s0 _ s Hw Hfs Hf) as (s' & Hr & Hp). fold d in Hr.
+  rewrite map_snd_bytes, Hlen in Hr.
+  exists s'. split; [|exact Hp].
+  rewrite (getstring_read_fields _ _ _ _ [] _ _ Hr). cbn [rev app].
+  rewrite map_val_bytes by exact Hl. reflexivity.
+Qed.
+
+(* reading a string never touches memory outside the section, whatever the cursor and the length *)
+Theorem getstring_no_oob : forall len d L s acc, (L <= length d)%nat -> getstring d L s len acc <> None.
+Proof.
+  induction len as [|k IH]; intros d L s acc HL; cbn [getstring]; [discriminate|].
+  destruct (getbits d L s 8) as [|v e s1] eqn:E.
+  - exfalso. exact (getbits_no_oob d L s 8 HL E).
+  - destruct (Z.ltb e 0); [discriminate|]. apply IH. exact HL.
+Qed.
+
+(* ... and a string that runs past the end of the section reports an error *)
+Theorem getstring_past_end : forall len d L s acc r,
+  L = length d -> RWF L s -> (rpos s + 8 * len > 8 * L)%nat ->
+  getstring d L s len acc = Some r -> (snd (fst r) < 0)%Z.
+Proof.
+  induction len as [|k IH]; intros d L s acc r HL Hr Hp H; [unfold RWF, rpos in *; lia|].
+  cbn [getstring] in H.
+  destruct (getbits_spec d L s 8 HL Hr ltac:(lia)) as [G1 G2].
+  destruct (Nat.le_gt_cases (rpos s + 8) (8 * L)) as [Hin|Hout].
+  - destruct (G1 Hin) as (s1 & Hg & Hp1 & Hr1). rewrite Hg in H.
+    change (Z.ltb 0 0) with false in H. cbv iota in H.
+    eapply (IH d L s1 _ r HL Hr1); [lia|exact H].
+  - destruct (G2 Hout) as (v & e & s1 & Hg & He & _). rewrite Hg in H.
+    destruct (Z.ltb_spec e 0) as [_|C]; [|lia]. injection H as <-. cbn [fst snd]. exact He.
+Qed.
